@@ -8,6 +8,7 @@ import numpy as np
 
 from harness.bootstrap import load_chi
 from harness.core import Family
+from harness import forms as FM
 from harness import gen_pop as GP
 from harness.oracle.hierarchy import Hierarchy
 from harness.oracle import densities as D
@@ -520,9 +521,77 @@ def pointmass_case(ctx, rng, idx):
                            'parameters': arr, 'observations': pert}, feats)
 
 
+def forms_case(ctx, rng, idx):
+    """the same parameter values / individual parameters handed over in
+    another container or dtype (lists, integer dtypes for integer-valued
+    numbers, read-only, non-contiguous, Fortran order) score the same"""
+    kind, centered = KINDS[idx % len(KINDS)]
+    layout = LAYOUTS[(idx // len(KINDS)) % 3]
+    n_dim = int(rng.integers(1, 4))
+    n_ids = int(rng.integers(1, 6))
+    leaf = GP.make_leaf(kind, n_dim, centered, 0, None, n_ids)
+    model = GP.build_chi_leaf(leaf, n_ids)
+    model.set_n_ids(n_ids)
+    # (population models document np.ndarray inputs: array forms only)
+    form = FM.pick(rng, ['readonly', 'strided', 'fortran', 'int64', 'int32'])
+    theta = GP.leaf_top(rng, leaf, n_ids)
+    is_int = form in ('int64', 'int32')
+    if is_int:
+        theta = FM.intify(4 * theta)
+        theta[n_dim:2 * n_dim] = np.abs(theta[n_dim:2 * n_dim]) \
+            if kind in 'GLT' else theta[n_dim:2 * n_dim]
+    arr, th = _layout(theta, leaf, n_ids, layout, rng)
+    obs = _obs(rng, leaf, th, n_ids)
+    if is_int and kind in 'GLT':
+        obs = FM.intify(4 * obs)
+    av, ov = FM.variant(arr, form), FM.variant(obs, form)
+    if av is None or ov is None:
+        ctx.reject('form not applicable')
+        return
+    feats = {'kind': kind, 'centered': centered, 'n_dim': n_dim,
+             'n_ids': n_ids, 'layout': layout, 'input_form': form}
+    ctx.case(('forms', kind, centered, layout, form), True,
+             sample=dict(feats, parameters=arr, observations=obs))
+    ref = float(np.real(leaf.logp(th, obs) if kind in 'GLT' else 0.0))
+    psi_ref = np.real(_psi(leaf, th.astype(complex), obs, n_ids))
+    try:
+        val = model.compute_log_likelihood(av, ov)
+        s_red = model.compute_sensitivities(av, ov, reduce=True)[0]
+        out = model.compute_sensitivities(av, ov)
+        psi = np.asarray(model.compute_individual_parameters(av, ov),
+                         dtype=float)
+        base = model.compute_sensitivities(arr.copy(), obs.copy())
+    except Exception as e:      # noqa
+        ctx.violation_exc('evaluation_raises', e, {'case': feats}, feats)
+        return
+    ctx.count('input_forms_compared')
+    sc = abs(ref) + 1
+    bad = []
+    if not ctx.close(val, ref, rtol=1e-10, scale=sc):
+        bad.append(('value', val, ref))
+    if not ctx.close(s_red, ref, rtol=1e-10, scale=sc):
+        bad.append(('s1_reduced', s_red, ref))
+    if not ctx.close(out[0], ref, rtol=1e-10, scale=sc):
+        bad.append(('s1_separate', out[0], ref))
+    if psi.shape != psi_ref.shape or not ctx.close(psi, psi_ref,
+                                                   rtol=1e-12):
+        bad.append(('individual_parameters', psi, psi_ref))
+    if np.isfinite(ref) and not FM.same(
+            tuple(np.asarray(o, dtype=float) for o in out[1:]),
+            tuple(np.asarray(o, dtype=float) for o in base[1:]), 1e-10):
+        bad.append(('sensitivities', out[1:], base[1:]))
+    if bad:
+        ctx.violation('same_numbers_same_result',
+                      'input_form:%s:%s:%s' % (kind, form, bad[0][0]),
+                      {'what': bad[0][0], 'chi': bad[0][1],
+                       'reference': bad[0][2], 'parameters': arr,
+                       'observations': obs}, feats)
+
+
 FAMILIES = [
     Family('leaf', leaf_case, quick=4200, thorough=84000),
     Family('composed', composed_case, quick=1500, thorough=30000),
     Family('support', support_case, quick=300, thorough=3000),
     Family('pointmass', pointmass_case, quick=768, thorough=7680),
+    Family('forms', forms_case, quick=1470, thorough=14700),
 ]
